@@ -78,6 +78,7 @@ func (ab *authRateLimiter) incLocked(usrID string, now time.Time) {
 
 	a, ok := ab.failedAuths[usrID]
 	if ok {
+		until = a.until
 		attNum = a.num + 1
 	}
 	if attNum >= ab.maxAttempts {
